@@ -245,7 +245,7 @@ func c06Plans(t fw.Tier) []c06Plan {
 }
 
 func init() {
-	fw.Register(&fw.Prop{
+	register(&fw.Prop{
 		ID: "C06",
 		Rule: "all binary-operator trees (15 binary + 5 assignment operators) up to n operators, 6 leaf valuations, with up to k decorations (prefix ! - +, redundant parentheses, `is`, .member / [index] / (call) suffixes -- on a leaf, on an operator node and on top of another decoration) on any node; " +
 			"each tree is rendered minimally and fully parenthesised; oracle: impl(min) == impl(full) (no model) and impl(full) == model(tree); a state is a (parent operator, child operator, side) triple; " +
